@@ -301,6 +301,15 @@ class CondV:
         self.text, self.lhs, self.op, self.rhs = text, lhs, op, rhs
 
 
+class FInfoV:
+    """numpy.finfo(float): the constants of IEEE double precision"""
+    vals = {"eps": sp.Rational(1, 2 ** 52), "tiny": sp.Rational(1, 2 ** 1022), "smallest_normal": sp.Rational(1, 2 ** 1022), "max": (2 - sp.Rational(1, 2 ** 52)) * 2 ** 1023,
+            "min": -(2 - sp.Rational(1, 2 ** 52)) * 2 ** 1023, "resolution": sp.Rational(1, 10 ** 15), "epsneg": sp.Rational(1, 2 ** 53)}
+
+
+SLOGDET_COUNTER = [0]
+
+
 NONE = None
 AVG = sp.Function("AVG")
 GRAD = sp.Function("GRAD")
@@ -697,6 +706,8 @@ class Ev:
             return BoundLib(f"set.{name}", v)
         if isinstance(v, Tup) and v.kind == "list" and name in ("sort", "reverse", "insert", "remove", "clear"):
             return BoundLib(f"list.{name}", v)
+        if isinstance(v, FInfoV) and name in FInfoV.vals:
+            return FInfoV.vals[name]
         if isinstance(v, Tup) and name == "__getitem__":
             return BoundLib("list.__getitem__", v)
         if isinstance(v, Tup) and name in ("append", "index", "tolist", "extend", "count", "copy", "pop"):
@@ -1146,6 +1157,8 @@ class Ev:
             return self.str_format(a, b, n, mod)
         if isinstance(a, str) and isinstance(b, str) and isinstance(op, ast.Add):
             return a + b
+        if isinstance(a, CondV) and isinstance(b, CondV) and isinstance(op, ast.BitAnd):
+            return CondV(f"({a.text}) & ({b.text})", a, "and", b)        # elementwise conjunction of two masks
         if isinstance(a, Tup) and isinstance(b, Tup) and isinstance(op, ast.Add):
             return Tup(a.items + b.items, a.kind)
         if isinstance(a, Tup) and isinstance(b, Tup) and isinstance(op, (ast.Sub, ast.BitAnd, ast.BitOr, ast.BitXor)) \
@@ -1565,6 +1578,14 @@ class Ev:
                 # the rows of one block of the leading grid axis: arrays are elementwise over the grid, so the block is the same expression
                 # (whether the blocks together are the whole axis is decided where the result is stored)
                 return base
+        if isinstance(base, ArrV) and base.batch and not base.batch_last and isinstance(idx, CondV) and _grid_mask_of_matrices(idx):
+            # m[mask]: the matrices at the grid points where the mask holds - the same cell expressions, on a part of the grid
+            out = ArrV(base.batch, base.shape, base.fill, dict(base.cells))
+            for at in ("sym_of", "symmetric", "tag", "truncated", "unordered_axes"):
+                if hasattr(base, at):
+                    setattr(out, at, getattr(base, at))
+            out.selected_by = idx
+            return out
         if isinstance(base, ArrV) and base.batch >= 2 and not base.batch_last and is_sym(idx) and idx.is_Integer and getattr(base, "grid_dims", None):
             return GridSlab(base)
         if hasattr(base, "sym_subscript"):
@@ -2169,6 +2190,17 @@ class Ev:
 
     def _store_into(self, base, idx, v, t, mod, env=None):
         env = env if env is not None else {}
+        if isinstance(base, ArrV) and isinstance(idx, CondV) and _grid_mask_of_matrices(idx):
+            if not (isinstance(v, ArrV) and getattr(v, "selected_by", None) is idx and tuple(v.shape) == tuple(base.shape) and v.batch == base.batch and not base.cells):
+                raise self.err("store under a mask over the grid axes: only `out[mask] = f(m[mask])` into a freshly filled array is modelled", t, mod)
+            # out = f(m) where the mask holds, the previous fill elsewhere; the mask is kept for the rule that has to accept it
+            base.cells = dict(v.cells)
+            base.guarded_fill, base.fill = base.fill, v.fill
+            for at in ("sym_of", "symmetric", "tag", "truncated"):
+                if hasattr(v, at):
+                    setattr(base, at, getattr(v, at))
+            self.__dict__.setdefault("inversion_guards", []).append((idx, base.guarded_fill, f"{mod.rel}:{getattr(t, 'lineno', 0)}" if mod else ""))
+            return
         if hasattr(base, "sym_store"):
             return base.sym_store(self, idx, v, t, mod)
         if isinstance(base, DictV):
@@ -3627,6 +3659,8 @@ def lib_inv(ev, a, k, n, mod):
         for i in range(size):
             for j in range(size):
                 out.cells[(i, j)] = Mi[i, j]
+        if getattr(m, "selected_by", None) is not None:
+            out.selected_by = m.selected_by
         ev.__dict__.setdefault("inversions", []).append(out)
         return out
     symmetric = all(sp.simplify(m.get((i, j)) - m.get((j, i))) == 0 for i in range(size) for j in range(i))
@@ -3639,8 +3673,50 @@ def lib_inv(ev, a, k, n, mod):
             out.cells[(i, j)] = sp.Symbol(f"INV{tag}_{a_}_{b_}", real=True)
     out.symmetric = symmetric
     out.tag = tag
+    if getattr(m, "selected_by", None) is not None:
+        out.selected_by = m.selected_by
     ev.__dict__.setdefault("inversions", []).append(out)
     return out
+
+
+def _grid_mask_of_matrices(c) -> bool:
+    """a condition built only from the sign / log-determinant symbols of slogdet: one truth value per grid point"""
+    if isinstance(c, CondV) and c.op == "and":
+        return _grid_mask_of_matrices(c.lhs) and _grid_mask_of_matrices(c.rhs)
+    return isinstance(c, CondV) and is_sym(c.lhs) and is_sym(c.rhs) and bool(as_sym(c.lhs).free_symbols | as_sym(c.rhs).free_symbols) \
+        and all(str(x).startswith("SLOGDET_") for x in (as_sym(c.lhs).free_symbols | as_sym(c.rhs).free_symbols))
+
+
+def lib_slogdet(ev, a, k, n, mod):
+    """numpy.linalg.slogdet(m) -> (sign, log|det|) per matrix: two symbols tied to the matrix"""
+    m = a[0]
+    if not isinstance(m, ArrV) or len(m.shape) != 2 or m.shape[0] != m.shape[1]:
+        raise ev.err("numpy.linalg.slogdet of something that is not a (..., n, n) array", n, mod)
+    SLOGDET_COUNTER[0] += 1
+    tag = SLOGDET_COUNTER[0]
+    ev.__dict__.setdefault("slogdets", {})[tag] = m
+    return Tup([sp.Symbol(f"SLOGDET_SIGN_{tag}", real=True), sp.Symbol(f"SLOGDET_LOG_{tag}", real=True)], "tuple")
+
+
+lib_slogdet.kw = set()
+
+
+def lib_finfo(ev, a, k, n, mod):
+    t = a[0] if a else k.get("dtype")
+    name = getattr(t, "name", t)
+    if name not in ("builtins.float", "numpy.float64", "numpy.double", "float", "float64", "d", "f8"):
+        raise ev.err(f"numpy.finfo of {t!r} is not modelled", n, mod)
+    return FInfoV()
+
+
+def lib_full_like(ev, a, k, n, mod):
+    x = a[0]
+    val = a[1] if len(a) > 1 else k.get("fill_value")
+    if getattr(val, "name", None) in ("numpy.nan", "math.nan", "numpy.NaN"):
+        val = sp.nan
+    if set(k) - {"fill_value"} or not is_sym(val) or not isinstance(x, ArrV):
+        raise ev.err("numpy.full_like: only (array, scalar) is modelled", n, mod)
+    return ArrV(x.batch, x.shape, as_sym(val))
 
 
 def lib_pinv(ev, a, k, n, mod):
@@ -3667,6 +3743,7 @@ def lib_pinv(ev, a, k, n, mod):
 
 
 lib_pinv.kw = {"rcond", "rtol", "hermitian"}
+LIB_LATE = {"numpy.linalg.slogdet": lib_slogdet, "numpy.finfo": lib_finfo, "numpy.full_like": lib_full_like}
 
 
 def lib_allclose_unknown(ev, a, k, n, mod):
@@ -5914,3 +5991,7 @@ def _opaque_extreme(tag):
 
 LIB.update({"arr.min": _arr_reduce(min, _opaque_extreme("MINOF")), "arr.max": _arr_reduce(max, _opaque_extreme("MAXOF")), "arr.sum": _arr_reduce(lambda v: sum(v, sp.Integer(0)), lambda v: sum(v, sp.Integer(0))),
             "arr.mean": _arr_reduce(lambda v: sum(v, sp.Integer(0)) / len(v), lambda v: sum(v, sp.Integer(0)) / len(v))})
+
+
+for _k, _f in LIB_LATE.items():
+    LIB.setdefault(_k, _f)
